@@ -180,7 +180,8 @@ func (k *RenewCase) authority() (*authority.Authority, error) {
 		Address:  ":443",
 		DNSNames: []string{"ca.verif.test"},
 		AuthorityConfig: &config.AuthConfig{
-			Provisioners: provisioner.List{jp, xp, &provisioner.Nebula{Name: "nebula", Type: "Nebula", Roots: e.nebPEM, Claims: k.provClaims()}},
+			Provisioners: provisioner.List{jp, xp, &provisioner.Nebula{Name: "nebula", Type: "Nebula", Roots: e.nebPEM, Claims: k.provClaims()},
+				&provisioner.SSHPOP{Name: "sshpop", Type: "SSHPOP", Claims: k.provClaims()}},
 			Backdate:     &provisioner.Duration{Duration: time.Duration(k.Backdate)},
 			Claims:       k.A.claims(),
 		},
